@@ -364,6 +364,15 @@ def long_subject_worker(job):
                     head_ = a + b + b + c
                     subs |= {head_ + tail_, tail_ + head_, (a + tail_ + c + a)[:120], tail_[:100], a + tail_ + b + c + a}
                 rows.append((pat, sorted(s_ for s_ in subs if len(s_) <= 130)))
+            # bracket expressions of 60-130 bytes (plain and negated): still bracket expressions
+            import string
+            for _ in range(max(2, nrows // 3)):
+                members = "".join(rng.sample(string.ascii_letters + string.digits + "._-", rng.randint(58, 64)))
+                extra = rng.choice(["", "[:digit:]", "a-f", "[:upper:][:punct:]"])
+                br = "[" + rng.choice(["", "!"]) + members + extra + "]"
+                pat = rng.choice([br, "x" + br + "y", br + "*", "*" + br])
+                subs = [c_ for c_ in "aZ5._-xQ%"] + ["x%sy" % c_ for c_ in "aZ5.%"] + ["a" * 3, "", "ab"]
+                rows.append((pat, subs))
             run_rows(st, base, kind, rows)
             st.inc("long_subject_rows:" + kind, len(rows))
     finally:
